@@ -262,6 +262,189 @@ theorem fill_move_changes_width :
 example : ∃ l', Attr.set envNone .left (.int 5) fillW = .ok l' ∧ width l' = .ok 32 :=
   ⟨{ fillW with left := 5, right := 37 }, rfl, rfl⟩
 
+/-! ### the frame across layers and documents -/
+
+/-- **edit_frames_other_layers.** While every record owns its flags object, an attribute edit of
+layer `i` leaves every other layer of the process — same document or not — exactly as it was:
+every getter, the size, the pixels, and what `save` writes for it. -/
+theorem edit_frames_other_layers (E : Env) (a : Attr) (v : Val) (i j : Nat) (d d' : Doc)
+    (ho : d.Owned) (hij : i ≠ j) (h : d.edit E a v i = .ok d') :
+    d'.view j = d.view j ∧
+    (∀ b, (d'.view j).map (get b) = (d.view j).map (get b)) ∧
+    (d'.view j).map (save E) = (d.view j).map (save E) := by
+  have key : d'.view j = d.view j := by
+    unfold Doc.edit at h
+    cases hri : d.recs[i]? with
+    | none => simp [hri] at h
+    | some p =>
+      obtain ⟨li, ri⟩ := p
+      cases hvi : d.view i with
+      | none => simp [hri, hvi] at h
+      | some l =>
+        simp only [hri, hvi] at h
+        cases hs : Attr.set E a v l with
+        | error e => simp [hs] at h
+        | ok l' =>
+          simp only [hs, Except.ok.injEq] at h
+          subst h
+          unfold Doc.view
+          simp only [List.getElem?_set_ne hij]
+          cases hrj : d.recs[j]? with
+          | none => rfl
+          | some q =>
+            obtain ⟨lj, rj⟩ := q
+            have hne : ri ≠ rj := ho.1 i j li lj ri rj hri hrj hij
+            simp only [List.getElem?_set_ne hne]
+  exact ⟨key, fun b => by rw [key], by rw [key]⟩
+
+/-- an edit keeps the ownership (no setter rebinds or shares an element) -/
+theorem edit_owned (E : Env) (a : Attr) (v : Val) (i : Nat) (d d' : Doc)
+    (ho : d.Owned) (h : d.edit E a v i = .ok d') : d'.Owned := by
+  unfold Doc.edit at h
+  cases hri : d.recs[i]? with
+  | none => simp [hri] at h
+  | some p =>
+    obtain ⟨li, ri⟩ := p
+    cases hvi : d.view i with
+    | none => simp [hri, hvi] at h
+    | some l =>
+      simp only [hri, hvi] at h
+      cases hs : Attr.set E a v l with
+      | error e => simp [hs] at h
+      | ok l' =>
+        simp only [hs, Except.ok.injEq] at h
+        subst h
+        -- the addresses are what they were
+        have haddr : ∀ (k : Nat) (lk : Layer) (rk : Nat), (d.recs.set i (l', ri))[k]? = some (lk, rk) →
+            ∃ lk' : Layer, d.recs[k]? = some (lk', rk) := by
+          intro k lk rk hk
+          by_cases hik : i = k
+          · subst hik
+            have hlt : i < d.recs.length := by
+              rcases Nat.lt_or_ge i d.recs.length with h1 | h1
+              · exact h1
+              · rw [List.getElem?_eq_none (by simpa using h1)] at hri; cases hri
+            rw [List.getElem?_set_self hlt] at hk
+            simp only [Option.some.injEq, Prod.mk.injEq] at hk
+            exact ⟨li, by rw [hri, ← hk.2]⟩
+          · rw [List.getElem?_set_ne hik] at hk
+            exact ⟨lk, hk⟩
+        refine ⟨?_, ?_⟩
+        · intro a b la lb ra rb h1 h2 hab
+          obtain ⟨la', h1'⟩ := haddr a la ra h1
+          obtain ⟨lb', h2'⟩ := haddr b lb rb h2
+          exact ho.1 a b la' lb' ra rb h1' h2' hab
+        · intro k lk rk hk
+          obtain ⟨lk', hk'⟩ := haddr k lk rk hk
+          simpa using ho.2 k lk' rk hk'
+
+/-- a layer built by a constructor (`factory=LayerFlags`) owns its flags, starts with exactly the
+attributes the constructor gave it — whatever was edited before — and leaves the others alone -/
+theorem new_layer_owned (l : Layer) (d : Doc) (ho : d.Owned) :
+    (d.newLayer l).Owned ∧ (d.newLayer l).view d.recs.length = some l ∧
+    ∀ j, j < d.recs.length → (d.newLayer l).view j = d.view j := by
+  have hget : ∀ (k : Nat) (lk : Layer) (rk : Nat), (d.recs ++ [(l, d.heap.length)])[k]? = some (lk, rk) →
+      (k < d.recs.length ∧ d.recs[k]? = some (lk, rk)) ∨ (k = d.recs.length ∧ rk = d.heap.length) := by
+    intro k lk rk hk
+    rcases Nat.lt_or_ge k d.recs.length with h1 | h1
+    · left; rw [List.getElem?_append_left h1] at hk; exact ⟨h1, hk⟩
+    · right
+      rw [List.getElem?_append_right h1] at hk
+      rcases Nat.eq_zero_or_pos (k - d.recs.length) with h0 | h0
+      · rw [h0] at hk
+        simp only [List.getElem?_cons_zero, Option.some.injEq, Prod.mk.injEq] at hk
+        exact ⟨by omega, hk.2.symm⟩
+      · rw [List.getElem?_eq_none (by simp only [List.length_cons, List.length_nil]; omega)] at hk; cases hk
+  refine ⟨⟨?_, ?_⟩, ?_, ?_⟩
+  · intro a b la lb ra rb h1 h2 hab
+    rcases hget a la ra h1 with ⟨_, h1'⟩ | ⟨ha, hra⟩ <;> rcases hget b lb rb h2 with ⟨_, h2'⟩ | ⟨hb, hrb⟩
+    · exact ho.1 a b la lb ra rb h1' h2' hab
+    · have := ho.2 a la ra h1'; omega
+    · have := ho.2 b lb rb h2'; omega
+    · omega
+  · intro k lk rk hk
+    simp only [Doc.newLayer, List.length_append, List.length_cons, List.length_nil]
+    rcases hget k lk rk hk with ⟨_, hk'⟩ | ⟨_, hr⟩
+    · have := ho.2 k lk rk hk'; omega
+    · omega
+  · simp [Doc.view, Doc.newLayer]
+  · intro j hj
+    unfold Doc.view Doc.newLayer
+    simp only [List.getElem?_append_left hj]
+    cases hrj : d.recs[j]? with
+    | none => rfl
+    | some q =>
+      obtain ⟨lj, rj⟩ := q
+      have := ho.2 j lj rj hrj
+      simp only [List.getElem?_append_left this]
+
+/-- … along any history of edits of other layers and of layer creations: layer `j` reads the same
+after it, and the ownership is kept. -/
+theorem history_frames_other_layers (E : Env) (ops : List DocOp) (d : Doc) (j : Nat)
+    (ho : d.Owned) (hj : j < d.recs.length)
+    (hops : ∀ o ∈ ops, ∀ i a v, o = .edit i a v → i ≠ j) :
+    (Doc.run E d ops).Owned ∧ (Doc.run E d ops).view j = d.view j ∧ j < (Doc.run E d ops).recs.length := by
+  induction ops generalizing d with
+  | nil => exact ⟨ho, rfl, hj⟩
+  | cons o os ih =>
+    have hrest : ∀ o' ∈ os, ∀ i a v, o' = .edit i a v → i ≠ j :=
+      fun o' ho' => hops o' (List.mem_cons_of_mem _ ho')
+    unfold Doc.run
+    cases hs : d.step E o with
+    | error e => simpa [hs] using ih d ho hj hrest
+    | ok d1 =>
+      cases o with
+      | edit i a v =>
+        have hij : i ≠ j := hops _ (List.mem_cons_self ..) i a v rfl
+        simp only [Doc.step] at hs
+        have ho1 := edit_owned E a v i d d1 ho hs
+        have hv := (edit_frames_other_layers E a v i j d d1 ho hij hs).1
+        have hlen : j < d1.recs.length := by
+          unfold Doc.edit at hs
+          cases hri : d.recs[i]? with
+          | none => simp [hri] at hs
+          | some p =>
+            cases hvi : d.view i with
+            | none => simp [hri, hvi] at hs
+            | some l =>
+              simp only [hri, hvi] at hs
+              cases hset : Attr.set E a v l with
+              | error e => simp [hset] at hs
+              | ok l' => simp only [hset, Except.ok.injEq] at hs; subst hs; simpa using hj
+        obtain ⟨r1, r2, r3⟩ := ih d1 ho1 hlen hrest
+        exact ⟨r1, by rw [r2, hv], r3⟩
+      | new l =>
+        simp only [Doc.step, Except.ok.injEq] at hs
+        subst hs
+        obtain ⟨n1, _, n3⟩ := new_layer_owned l d ho
+        have hlen : j < (d.newLayer l).recs.length := by simp [Doc.newLayer]; omega
+        obtain ⟨r1, r2, r3⟩ := ih (d.newLayer l) n1 hlen hrest
+        exact ⟨r1, by rw [r2, n3 j hj], r3⟩
+
+/-- The tie of `Doc.newLayer` to the source: no attrs field of the record classes
+(psd/layer_and_mask.py, regenerated every run) takes its default from one shared mutable object;
+`LayerRecord.flags` in particular is built by a factory, per record. -/
+theorem record_defaults_owned :
+    Generated.Attr.recordDefaults.all (fun p => p.2 == "factory" || p.2 == "immutable" || p.2 == "required") = true ∧
+    ("LayerRecord.flags", "factory") ∈ Generated.Attr.recordDefaults := by decide
+
+/-- the hypotheses are satisfiable: two constructed layers own their flags -/
+example : (Doc.newLayer (groupNew [66] true) (Doc.newLayer (groupNew [65] true) ⟨[], []⟩)).Owned :=
+  (new_layer_owned _ _ (new_layer_owned _ _ ⟨by simp, by simp⟩).1).1
+
+/-- Why ownership is needed: with ONE default `LayerFlags` object for every record built without
+explicit flags (`attr.ib(default=LayerFlags())` instead of `factory=LayerFlags`), hiding the first
+API-created group hides the second one and every layer created later. -/
+theorem shared_default_breaks_frame :
+    let d0 : Doc := ⟨[], [{}]⟩                -- address 0: the default object of the class
+    let d := (d0.newLayerSharedDefault 0 (groupNew [65] true)).newLayerSharedDefault 0 (groupNew [66] true)
+    (d.view 1).map (get .visible) = some (.ok (.bool true)) ∧
+    ((d.edit envNone .visible (.bool false) 0).map fun d' => (d'.view 1).map (get .visible))
+      = .ok (some (.ok (.bool false))) ∧
+    ((d.edit envNone .visible (.bool false) 0).map fun d' =>
+        ((d'.newLayerSharedDefault 0 (groupNew [67] true)).view 2).map (get .visible))
+      = .ok (some (.ok (.bool false))) := by decide
+
 /-! ### persistence -/
 
 theorem saveable_set (E : Env) (hE : EnvLaws E) (a : Attr) (v : Val) (l l' : Layer)
